@@ -1907,6 +1907,16 @@ def r86(ctx: Ctx) -> RuleReport:
             ann = norm(arg.annotation) if arg.annotation is not None else ''
             if any(w in ann for w in ('Iterable[', 'Iterator[', 'FileOrFilename', 'IO[', 'TextIO', 'Generator[')):
                 cands.append(arg.arg)
+        # local one-shot iterators: x = <pattern>.finditer(..) / iter(..) / map(..) / filter(..) / zip(..) / (generator expression)
+        locals_once = {}
+        for n_ in walk_local(fi.node):
+            if isinstance(n_, ast.Assign) and len(n_.targets) == 1 and isinstance(n_.targets[0], ast.Name):
+                v_ = n_.value
+                one_shot = isinstance(v_, ast.GeneratorExp) or (isinstance(v_, ast.Call) and (
+                    (isinstance(v_.func, ast.Attribute) and v_.func.attr in ('finditer', 'scandir', 'iterdir', 'items_iter')) or
+                    (isinstance(v_.func, ast.Name) and v_.func.id in ('iter', 'map', 'filter', 'zip', 'reversed', 'enumerate'))))
+                locals_once.setdefault(n_.targets[0].id, []).append(one_shot)
+        cands += [nm_ for nm_, flags_ in locals_once.items() if len(flags_) == 1 and flags_[0] and nm_ not in cands and nm_ not in fi.params]
         if not cands:
             continue
         try:
@@ -2444,4 +2454,105 @@ def r96b(ctx: Ctx) -> RuleReport:
     for f in ctx.repo.all_functions():
         if any(isinstance(x, ast.Return) and x.value is not None for x in walk_local(f.node)):
             rep.ok(f'{f.module.name}:{f.qualname}: has a valued return', f.loc())
+    return rep
+
+
+# ---------------------------------------------------------------------------------------------
+@rule('R104', 'a value derived from the current element of a loop does not survive into the next iteration through a variable that is only set on some paths')
+def r104(ctx: Ctx) -> RuleReport:
+    from ..cfg import reaching_defs
+    rep = RuleReport('R104', r104.title, floor=20)
+    n_loops = 0
+    for fi in ctx.repo.all_functions():
+        loops = [n for n in walk_local(fi.node) if isinstance(n, (ast.For, ast.While))]
+        if not loops:
+            continue
+        try:
+            cfg = CFG(fi.node)
+        except AnalysisError:
+            continue
+        a = fi.node.args
+        params = [x.arg for x in a.posonlyargs + a.args + a.kwonlyargs]
+        rd = None
+        for loop in loops:
+            n_loops += 1
+            head = cfg.node_of(loop)
+            if isinstance(loop, ast.For):
+                elem = {x.id for x in ast.walk(loop.target) if isinstance(x, ast.Name)}
+            else:
+                # a while loop has no element variable: what every iteration binds unconditionally at the top level of its body plays that part
+                elem = set()
+                for st_ in loop.body:
+                    if isinstance(st_, ast.Assign) and isinstance(st_.value, (ast.Call, ast.Subscript, ast.Attribute)):
+                        for t_ in st_.targets:
+                            elem |= {x.id for x in ast.walk(t_) if isinstance(x, ast.Name)}
+                if not elem:
+                    continue
+            body_nodes = {cfg.stmt_node[id(x)] for x in ast.walk(loop) if id(x) in cfg.stmt_node} - {head}
+            # element-derived names: assigned (anywhere in the body) from an expression that mentions the loop element or another derived name
+            derived = set(elem)
+            grew = True
+            while grew:
+                grew = False
+                for n in ast.walk(loop):
+                    tg = val = None
+                    if isinstance(n, ast.Assign) and len(n.targets) == 1:
+                        tg, val = n.targets[0], n.value
+                    elif isinstance(n, ast.For) and n is not loop:
+                        tg, val = n.target, n.iter
+                    if tg is None:
+                        continue
+                    if any(isinstance(x, ast.Name) and x.id in derived for x in ast.walk(val)):
+                        for x in ast.walk(tg):
+                            if isinstance(x, ast.Name) and x.id not in derived:
+                                derived.add(x.id)
+                                grew = True
+            key_loop = f'{fi.module.name}:{fi.qualname}: loop over {norm(loop.iter if isinstance(loop, ast.For) else loop.test)[:40]} carries no element-derived value into the next iteration'
+            found = None
+            for v in sorted(derived - elem):
+                defs_in = [n for n in ast.walk(loop) if isinstance(n, ast.Assign) and len(n.targets) == 1 and any(isinstance(x, ast.Name) and x.id == v for x in ast.walk(n.targets[0]))]
+                if not defs_in:
+                    continue
+                # accumulators refer to their own old value, flags are set to constants: both are carried on purpose
+                if all(any(isinstance(x, ast.Name) and x.id == v for x in ast.walk(d.value)) for d in defs_in):
+                    continue
+                if any(isinstance(n, ast.AugAssign) and isinstance(n.target, ast.Name) and n.target.id == v for n in ast.walk(loop)):
+                    continue
+                if all(isinstance(d.value, ast.Constant) for d in defs_in):
+                    continue
+                data_defs = [d for d in defs_in if any(isinstance(x, ast.Name) and x.id in derived for x in ast.walk(d.value))]
+                if not data_defs:
+                    continue
+                if rd is None:
+                    rd = reaching_defs(cfg, params)
+                dn = {cfg.node_of(d) for d in defs_in if id(d) in cfg.stmt_node}
+                data_dn = {cfg.node_of(d) for d in data_defs if id(d) in cfg.stmt_node}
+                # a use inside the loop that is reached (a) by a data definition of an earlier iteration, i.e. along a path through the loop head
+                for u in ast.walk(loop):
+                    if not (isinstance(u, ast.Name) and u.id == v and isinstance(u.ctx, ast.Load)):
+                        continue
+                    try:
+                        un = owner_node(cfg, ctx.repo.parent_map(fi.node), u)
+                    except Exception:
+                        continue
+                    if un not in body_nodes and un != head:
+                        continue
+                    reach = rd.get(un, {}).get(v, frozenset())
+                    if not (reach & data_dn):
+                        continue
+                    # is there a path head -> use that passes no definition of v (this iteration leaves it alone)?
+                    starts = [(head, 'T')] if isinstance(loop, ast.For) else [(head, None)]
+                    stale = cfg.path_avoiding(starts, {un}, lambda nd: nd.id in dn or nd.id == head)
+                    if stale is not None:
+                        found = (v, u, data_defs[0])
+                        break
+                if found:
+                    break
+            if found:
+                v, u, d = found
+                rep.violation(key_loop, fi.loc(u), f'`{v}` is set from the current element by `{norm(d)[:50]}` only on some paths through the loop body, and `{norm(u)}` at line {u.lineno} can be reached '
+                              f'in a later iteration without `{v}` having been set again: that iteration silently uses the value that belonged to an earlier element')
+            else:
+                rep.ok(key_loop, fi.loc(loop))
+    rep.analysed['loops'] = n_loops
     return rep
